@@ -103,7 +103,7 @@ impl Prop for C08 {
         }
     }
     fn rule(&self) -> &'static str {
-        "one run = a history (backups, stale-index double backups, forgets, non-instant prunes with repacking; then merge of all snapshots, rewrite with excludes, v1->v2 upgrade + prune --repack-uncompressed when the repo is v1, copy into a repository with other key/compression/pack size; the tail optionally under a seeded schedule) \
+        "one run = a history (backups, stale-index double backups, forgets, non-instant prunes with repacking; in half of the v2 runs compression switched off/on followed by another backup; then merge of all snapshots, rewrite with excludes, v1->v2 upgrade + prune --repack-uncompressed when the repo is v1, copy into a repository with other key/compression/pack size; the tail optionally under a seeded schedule) \
          with drawn blob-size mixes, compression levels and pack-size limits; monitor: every pack and index file ever written (taken from the op log, including files deleted later) is decoded independently: \
          pack id = SHA-256(bytes), trailer length, header authenticates, entries tile the body in order, every blob authenticates/decompresses to its recorded length and hashes to its id, single blob type per pack; \
          every index entry for a pack written in this world equals the header (type, id, offset, length, raw length) and the size. Then a seeded subset (or all) of the index files is removed, repair_index (+/- read_all) runs, \
@@ -180,6 +180,25 @@ impl Prop for C08 {
             }};
         }
         let tail_mode = sim.draw_mode(s.scheduled_tail, &[0, 1], false);
+        // compression switched on/off between backups: later (fast) repacks then build packs that mix
+        // compressed and uncompressed blobs, i.e. header entries of both lengths
+        if s.cfg.version == 2 && rng.chance(1, 2) {
+            let off = !matches!(s.cfg.compression, Some(0));
+            let lvl = if off { 0 } else { *rng.pick(&[1, 3]) };
+            let (store, key) = (sim.store.clone(), sim.key.clone());
+            let r = sim.run(&Mode::Free, move || {
+                let mut repo = repo_open(&store, 1, &key)?;
+                repo.apply_config(&ConfigOptions::default().set_compression(lvl)).map(|_| ())
+            });
+            step!(if off { "compression-off" } else { "compression-on" }, r);
+            let now = crate::interpose::clock_now() / 1_000_000_000;
+            let _ = crate::model::edit_model(&mut rng, &mut model, &s.gen, now, 3);
+            let plan = crate::model::ReadPlan { frag: vec![0, 4097], eintr_every: 0, gate_reads_every: 0 };
+            let r = sim.backup(&tail_mode, &model.clone(), 1, &rustic_core::BackupOptions::default(), &plan, "c08");
+            step!("backup-after-compression-change", r);
+            crate::interpose::clock_advance(3_600_000_000_000);
+            rep.fire("compression_changed_between_backups", 1);
+        }
         // merge all snapshots
         {
             let (store, key) = (sim.store.clone(), sim.key.clone());
